@@ -9,7 +9,7 @@ Section P.
   Notation wenv := (wenv MD P ST).
 
   Ltac step_cases s o :=
-    destruct o as [md|md|md|p|st];
+    destruct o as [md|md|md|p|p|st];
     unfold wr_list, wr, nexts, res; cbn [sstep fst snd];
     destruct (hsent s) eqn:?Hh; destruct (tsent s) eqn:?Ht; cbn [fst snd app hsent tsent hdrs trls].
 
@@ -41,7 +41,7 @@ Section P.
     end.
   Proof.
     revert s. induction ops as [|o ops IH]; intros s Hs; cbn [swritten accepted_hdrs]; [exact I|].
-    destruct o as [md|md|md|p|st].
+    destruct o as [md|md|md|p|p|st].
     - (* SetHeader *)
       unfold wr_list, wr, res, nexts. cbn [sstep]. rewrite Hs. cbn [fst snd app].
       specialize (IH (mkS (hdrs s ++ [md]) false (trls s) (tsent s)) eq_refl).
@@ -61,6 +61,8 @@ Section P.
       unfold wr_list, wr, res, nexts. cbn [sstep]. rewrite Hs. cbn [fst snd app].
       destruct (sent_no_more (mkS (hdrs s) true (trls s) (tsent s)) ops eq_refl) as [H1 H2].
       rewrite H2, app_nil_r. split; [reflexivity|exact H1].
+    - (* SendMsgBad: nothing happens *)
+      unfold wr_list, wr, res, nexts. cbn [sstep fst snd app]. apply IH; exact Hs.
     - (* SendTrailer *)
       unfold wr_list, wr, res, nexts. cbn [sstep].
       destruct (tsent s) eqn:Et; cbn [fst snd app].
@@ -94,7 +96,7 @@ Section P.
   Proof.
     revert s. induction ops as [|o ops IH]; intros s Hs pre e post H He; cbn [swritten accepted_trls] in *.
     - destruct pre; discriminate.
-    - destruct o as [md|md|md|p|st]; unfold wr_list, wr, nexts in *; cbn [sstep] in *.
+    - destruct o as [md|md|md|p|p|st]; unfold wr_list, wr, nexts in *; cbn [sstep] in *.
       + (* SetHeader *)
         destruct (hsent s); cbn [fst snd app] in *.
         * exact (IH s Hs pre e post H He).
@@ -116,6 +118,8 @@ Section P.
         injection H as <- H.
         destruct (IH (mkS (hdrs s) true (trls s) (tsent s)) Hs pre e post H He) as (H1 & H2 & H3).
         split; [constructor; [reflexivity|exact H1]|]. split; [exact H2|exact H3].
+      + (* SendMsgBad *)
+        cbn [fst snd app] in *. exact (IH s Hs pre e post H He).
       + (* SendTrailer *)
         rewrite Hs in *. cbn [fst snd app] in *.
         pose proof (tsent_no_more (mkS (hdrs s) true (trls s) true) ops eq_refl) as Hn.
